@@ -83,13 +83,13 @@ THEOREMS = [
     "moves_sequential_eq_simultaneous", "rename_exec_independent", "upload_renames_reach_tree_partial",
     "nested_rename_witness", "nested_rename_second_witness", "children_first_fixes_witnesses",
     "reach_core", "rename_into_new_dir_witness", "symlink_families_witness", "renamed_as_file_witness",
-    "kind_change_below_renamed_dir_witness", "deferred_deletion_witnesses", "full_upload_keeps_stale_witness", "ignored_rename_boundary_witness", "ignored_never_addressed",
+    "kind_change_below_renamed_dir_witness", "deferred_deletion_witnesses", "deferred_deletion_empty_occupant_witness", "full_upload_keeps_stale_witness", "ignored_rename_boundary_witness", "ignored_never_addressed",
     "full_upload_onto_empty_reaches_tree", "incremental_upload_reaches_tree_partial", "incremental_upload_frame",
     "upload_sequence_reaches_tree_partial", "full_upload_idempotent", "full_upload_twice",
     "special_file_removed_witness", "unescaped_symlink_witness",
 ]
 RULE = ("case = one upload: (remote listing before, tree delta the uploader computes, new tree, ignore list, mode "
-        "incremental | full | overwrite-jump); 26 pinned sequences, then sequences of 4-7 commits of 1-3 random edits "
+        "incremental | full | overwrite-jump); 27 pinned sequences, then sequences of 4-7 commits of 1-3 random edits "
         "over 8 names (3 of them need URL escaping); non-trivial = the delta has >= 2 entries or a rename; distinct by "
         "the canonical model input line; plus one treeWF and - for rename-free deltas - one deltaOK evaluation per upload")
 ASSUMPTIONS = [
@@ -110,6 +110,7 @@ FAMILIES = {
     "deferred-deletion-below-renamed-directory-nosuchfile": "a directory is removed below a directory that is renamed in the same delta; its deferred rmdir runs at the OLD path after the renames are finished: NoSuchFile",
     "rename-onto-deleted-directory-directorynotempty": "a directory takes the path of a directory removed in the same delta; the deferred rmdir of the removed one then hits the new occupant: DirectoryNotEmpty",
     "rename-onto-deleted-directory-readerror": "an entry takes the path of a directory removed in the same delta; the deferred rmdir runs after finish_renames: ReadError",
+    "rename-onto-deleted-directory-empty-occupant-removed": "an EMPTY directory takes the path of a directory removed in the same delta; the deferred rmdir of the removed one then silently removes the new occupant",
     "delete-directory-with-ignored-content-directorynotempty": "a removed directory still holds ignored remote content: the deferred rmdir raises DirectoryNotEmpty",
     "full-upload-keeps-stale-paths": "upload --full onto an existing remote never deletes paths that left the tree",
     "symlink-path-not-url-escaped": "upload_symlink hands link and target path to Transport.symlink without urlutils.escape: a symlink whose path or target path has a non-ASCII character cannot be uploaded (InvalidURL); one with a percent sign is rejected too or lands at the percent-decoded path",
@@ -684,6 +685,9 @@ def classify(mode, err, delta, ents, before, names, got, exp, from_kinds):
         if err == "NoSuchFile" and any(is_ign(names, o) != is_ign(names, n) for o, n in ren):
             return "rename-across-ignore-boundary-nosuchfile"
         if err is None:
+            lost = [n for _o, n in ren if n in removed_dirs and tree.get(n, ("?",))[0] == "d" and n not in got]
+            if lost and all(p in lost for p in diff):
+                return "rename-onto-deleted-directory-empty-occupant-removed"
             crossing = [n for o, n in ren if is_ign(names, o) and not is_ign(names, n)]
             extra = set(got) - set(exp)
             if crossing and extra and all(got.get(p) == v for p, v in exp.items()) \
@@ -870,6 +874,7 @@ SCRIPTS = {
                                  [("rm", "a/d"), ("mv", "a", "e")]],
     "dir-onto-deleted-dir": [[("mkdir", "f"), ("mkdir", "f/a"), ("file", "f/a/a", "1"), ("mkdir", "f/d"), ("file", "f/d/b", "2")],
                              [("mv", "f/a/a", "f/e"), ("rm", "f/a"), ("mv", "f/d", "f/a")]],
+    "empty-dir-onto-deleted-dir": [[("mkdir", "a"), ("file", "a/b", "1"), ("mkdir", "d")], [("rm", "a"), ("mv", "d", "a")]],
     "rename-modified": [[("file", "a", "1"), ("mkdir", "d")], [("file", "a", "11"), ("mv", "a", "d/b")]],
     # a rename chain that is no cycle: a -> b -> d -> e
     "chain-3": [[("file", "a", "1"), ("file", "b", "2"), ("mkdir", "d"), ("file", "d/x", "3")],
